@@ -480,6 +480,14 @@ pub fn rand_def(rng: &mut Rng, cfg: &GenCfg, defs: &[Def], idx: usize) -> Def {
 }
 
 pub fn rand_arg(rng: &mut Rng, depth: usize) -> Src {
+    // an argument that is itself a transparent wrapper (Cow<'static, str>, Cow<[u16]>)
+    if depth == 0 && rng.chance(1, 10) {
+        return if rng.chance(1, 2) {
+            Src::Cow(Box::new(Src::Prim("str")))
+        } else {
+            Src::Cow(Box::new(Src::Vec(Box::new(Src::Prim(*rng.pick(&ARG_PRIMS))))))
+        };
+    }
     if depth >= 2 || rng.chance(3, 5) {
         return Src::Prim(*rng.pick(&ARG_PRIMS));
     }
